@@ -72,15 +72,8 @@ theorem parse_error_dangling (c : Cst) (hwf : c.WF = true) (hc : Conv c = true)
     (hs : c.bigInt = false) (w : List Char) (hw : w.all isBlank = true) (op : Char)
     (hop : op = '+' ∨ op = '-' ∨ op = '*' ∨ op = '/' ∨ op = '^') (tail : List Char)
     (ht : cannotStart tail = true) :
-    parse (c.flatten ++ (w ++ op :: tail)) = .err (.invalidArgument tail) := by
-  rcases hop with h | h | h | h | h
-  · exact Q1t.Proofs.Expr.parse_dangling_sum c hwf hc hs w hw op (.inl h) tail ht
-  · exact Q1t.Proofs.Expr.parse_dangling_sum c hwf hc hs w hw op (.inr h) tail ht
-  · exact Q1t.Proofs.Expr.parse_dangling_product_any c hwf hc hs w hw op (.inl h) tail ht
-  · exact Q1t.Proofs.Expr.parse_dangling_product_any c hwf hc hs w hw op (.inr h) tail ht
-  · subst h
-    exact Q1t.Proofs.Expr.parse_dangling_power_any c hwf hc hs w hw tail _
-      (Q1t.Proofs.Expr.cannotStart_levels ht).1
+    parse (c.flatten ++ (w ++ op :: tail)) = .err (.invalidArgument tail) :=
+  Q1t.Proofs.Expr.parse_dangling_any c hwf hc hs w hw op hop tail ht
 
 /-- A signed exponent without parentheses is a dangling `^` (the text after `^` is not an operand of the
 power level): `c ^ blanks - anything` is rejected with `InvalidArgument(text after ^)`, ∀ `c`.
@@ -120,12 +113,8 @@ theorem parse_cst_ieee_partial (c : Cst) (hwf : c.WF = true) (hc : Conv c = true
     (rest : List Char) (hr : Stops rest = true) :
     parse (c.flatten ++ rest) = .ok (parsed c, rest) ∧
     (c.adjNeg = false → eval floatOps (parsed c) = .ok (evalConv ieee c.toAst)) ∧
-    ((∀ x : Float, - -x = x) → eval floatOps (parsed c) = .ok (evalConv ieee c.toAst)) := by
-  refine ⟨Q1t.Proofs.Expr.parse_flatten c hwf hc hs rest hr, fun h => ?_, fun h => ?_⟩
-  · rw [Q1t.Proofs.Expr.eval_parsed_noAdj floatOps c h,
-      Q1t.Proofs.Expr.evalConv_ieee _ (Q1t.Proofs.Expr.cst_ast_wf c hwf)]
-  · rw [Q1t.Proofs.Expr.eval_parsed floatOps h c,
-      Q1t.Proofs.Expr.evalConv_ieee _ (Q1t.Proofs.Expr.cst_ast_wf c hwf)]
+    ((∀ x : Float, - -x = x) → eval floatOps (parsed c) = .ok (evalConv ieee c.toAst)) :=
+  Q1t.Proofs.Expr.parse_cst_ieee c hwf hc hs rest hr
 
 /-- A literal is read the same way by the code (re-lexing the matched text) and by the reference
 (nearest double of the decimal value of the token): ∀ well-formed tokens. -/
@@ -144,12 +133,10 @@ flags), ∀ `rest` that `Stops`. -/
 theorem parse_render_partial (a : Ast) (l : Layout) (rest : List Char) (hwf : a.WF = true)
     (hs : a.bigInt = false) (hl : l.OK) (hr : Stops rest = true) :
     ∃ e, parse (render a l ++ rest) = .ok (e, rest) ∧
-      ∀ {F : Type} (I : FloatOps F), (∀ x, I.neg (I.neg x) = x) →
-        eval I e = .ok (evalConv (interpOf I) a) := by
-  obtain ⟨⟨g1, g2, g3, g4, _⟩, _⟩ := Q1t.Proofs.Expr.layOut_spec a 0 l (by omega) hl hwf
-  refine ⟨parsed (layOut a 0 l).1, Q1t.Proofs.Expr.parse_flatten _ g3 g2 (g4.trans hs) rest hr, ?_⟩
-  intro F I hneg
-  rw [Q1t.Proofs.Expr.eval_parsed I hneg, g1]
+      (∀ {F : Type} (I : FloatOps F), (∀ x, I.neg (I.neg x) = x) →
+        eval I e = .ok (evalConv (interpOf I) a)) ∧
+      ((∀ x : Float, - -x = x) → eval floatOps e = .ok (evalConv ieee a)) :=
+  Q1t.Proofs.Expr.parse_render a l rest hwf hs hl hr
 
 /-! ## non-vacuity, witnesses (kernel-evaluated on the model) -/
 
@@ -171,6 +158,17 @@ example :
     c.WF = true ∧ Conv c = true ∧ c.bigInt = false ∧ Stops ") 0".toList = true ∧
     c.flatten = "sin( 1.5e3 )*-pi".toList ∧
     parse (c.flatten ++ ") 0".toList) = .ok (parsed c, ") 0".toList) := by
+  decide +kernel
+
+/-- The error theorems are not vacuous: their hypotheses hold and their conclusions are what the kernel
+computes, for `) x` (cannot start), `(1+2 ]` and `sqrt (1+2 ]` (unclosed), `1+2* ` and `-2^` (dangling). -/
+example :
+    cannotStart ") x".toList = true ∧ parse ") x".toList = .err (.invalidArgument ") x".toList) ∧
+    Stops " ]".toList = true ∧
+    parse "(1+2 ]".toList = .err (.unclosedParentheses "(1+2 ]".toList) ∧
+    parse "sqrt (1+2 ]".toList = .err (.unclosedParentheses "sqrt (1+2 ]".toList) ∧
+    cannotStart " ".toList = true ∧ parse "1+2* ".toList = .err (.invalidArgument " ".toList) ∧
+    parse "-2^".toList = .err (.invalidArgument []) := by
   decide +kernel
 
 /-- Negative witness for the known finding `C14-int-literal-overflow`: the integer literal 2^64 is a
